@@ -43,13 +43,15 @@ def small_scope_cases():
         progs.append("(%s - %s)" % (y, x))
     for p in pats:
         for s in progs:
-            yield {"pattern": p, "code": "x = " + s, "origin": "small-scope"}
+            yield {"pattern": p, "code": "x = " + s, "origin": "small-scope", "setup": "code",
+                   "api": "find_matches", "spelling": "plain"}
 
 
 def gen_cases(rng, tier, prop):
     cases = []
     for p, c in cc.CORPUS_PAIRS:
-        cases.append({"pattern": p, "code": c, "origin": "corpus"})
+        cases.append({"pattern": p, "code": c, "origin": "corpus", "setup": cc.SETUPS[len(cases) % 3],
+                      "api": "node" if len(cases) % 4 == 3 else "find_matches", "spelling": "plain"})
     n_prog = {"quick": 110, "thorough": 2500}[tier]
     gen = cc.Gen(rng)
     progs = []
@@ -63,27 +65,47 @@ def gen_cases(rng, tier, prop):
         rng.shuffle(repo)
         repo = repo[:12]
     sources = [("gen", s) for s in progs] + [("repo:" + n, s) for n, s in repo]
-    for origin, code in sources:
+    for idx, (origin, code) in enumerate(sources):
+        spelling = "plain"
+        if origin == "gen" and rng.random() < 0.15:
+            code, spelling = cc.respell(rng, code)
+        setup = cc.SETUPS[idx % 3] if idx % 2 else "code"
         tree = ast.parse(code)
         k_derived = 3 if origin == "gen" else 4
         derived = []
+
+        def add(pattern, kind, d=None):
+            api = "node" if rng.random() < 0.15 else "find_matches"
+            psp = "plain"
+            if rng.random() < 0.08:
+                pattern2, psp = cc.respell(rng, pattern)
+                if psp in ("crlf", "cr", "formfeed"):
+                    pattern = pattern2
+                else:
+                    psp = "plain"
+            c = {"pattern": pattern, "code": code, "origin": origin + ":" + kind, "setup": setup, "api": api,
+                 "spelling": spelling if psp == "plain" else spelling + "+p-" + psp}
+            if d is not None:
+                c["derived"] = d
+            cases.append(c)
         for _ in range(k_derived):
             d = cc.derive(rng, code, tree)
             if d is not None:
                 derived.append(d)
-                cases.append({"pattern": d.pattern, "code": code, "origin": origin + ":derived", "derived": d})
+                add(d.pattern, "derived", d)
         # the statement itself / whole program (self-match)
         d = cc.derive(rng, code, tree, max_steps=0)
         if d is not None:
-            cases.append({"pattern": d.pattern, "code": code, "origin": origin + ":self", "derived": d})
+            add(d.pattern, "self", d)
         for d in derived[:2]:
             m = cc.mutate_pattern(rng, d.pattern)
             if m is not None:
-                cases.append({"pattern": m, "code": code, "origin": origin + ":mutated"})
+                add(m, "mutated")
         # a pattern from this program against another program
         if progs and derived:
             other = rng.choice(progs)
-            cases.append({"pattern": derived[0].pattern, "code": other, "origin": origin + ":cross"})
+            cases.append({"pattern": derived[0].pattern, "code": other, "origin": origin + ":cross",
+                          "setup": "code", "api": "find_matches", "spelling": "plain"})
     if tier == "thorough":
         cases.extend(small_scope_cases())
     return cases
@@ -92,52 +114,117 @@ def gen_cases(rng, tier, prop):
 STATE = {}
 
 
+def sub_cases(rng, c, r):
+    """matches within matches: search inside the subtree bound to an __e__ placeholder of a first-level match,
+    with and without the parent's bindings (CaitNode.find_matches(..., use_previous=...))."""
+    d = c.get("derived")
+    out = []
+    if d is None or not d.exps or not r.raw or r.api != "find_matches":
+        return out
+    key = sorted(d.exps)[0]
+    parent, cm = r.raw[0], r.matches[0]
+    if key not in cm["exps"]:
+        return out
+    anchor = cm["exps"][key]
+    src = d.exps[key][1]
+    pats = [src]
+    try:
+        sub_tree = ast.parse(src)
+        dd = cc.derive(rng, src, sub_tree, whole=True, max_steps=2)
+        if dd is not None:
+            pats.append(dd.pattern)
+    except SyntaxError:
+        pass
+    for k in sorted(d.vars)[:1]:
+        pats.append(k)                       # a placeholder the parent has already bound
+        pats.append("%s + ___" % k)
+    pats.append("_zz_")
+    for pat in pats:
+        for prev in (False, True):
+            out.append(({"pattern": pat, "code": c["code"], "origin": c["origin"].split(":")[0] + ":sub",
+                         "setup": c["setup"], "api": "sub", "spelling": c.get("spelling", "plain"),
+                         "use_previous": prev, "parent_pattern": c["pattern"]},
+                        dict(api="sub", anchor=anchor, parent=parent, key=key, use_previous=prev)))
+    return out
+
+
 def correspond(prop):
     def run(rng, tier, driver):
         res = CorrResult()
         res.rule = ("non-trivial = (pattern, program) pair on which the real find_matches returns at least one "
                     "match; compared per match: match_root, mappings (pattern path -> student path), "
-                    "exp_table, the three symbol tables (ids and nodes, in order), conflict keys; list order kept")
+                    "exp_table, the three symbol tables (ids and nodes, in order), conflict keys; list order kept; "
+                    "find_match must be find_matches[0]; a repeated call must repeat the answer")
         cases = gen_cases(rng, tier, prop)
         runs = []
         programs = {}
-        for c in cases:
+
+        def do(c, **kw):
             try:
-                prog = programs.get(c["code"])
+                prog = programs.get((c["code"], c["setup"]))
                 if prog is None:
-                    prog = programs[c["code"]] = cc.Program(c["code"])
+                    prog = programs[(c["code"], c["setup"])] = cc.Program(c["code"], c["setup"])
                 if prog.size > 60 and re.fullmatch(r"___|pass|__e\d*__", c["pattern"].strip()):
                     res.count("skipped:bare-wildcard-on-large-program")
-                    continue
-                r = cc.RealRun(c["pattern"], prog)
-            except (SyntaxError, RecursionError, ValueError):
+                    return None
+                if kw:
+                    r = cc.RealRun(c["pattern"], prog, **kw)
+                else:
+                    r = cc.RealRun(c["pattern"], prog, api=c["api"])
+            except (SyntaxError, RecursionError):
                 res.count("skipped:unparsable")
-                continue
+                return None
             runs.append((c, r))
-        answers = driver.ask([r.request() for _, r in runs])
-        for (c, r), a in zip(runs, answers):
+            return r
+        for c in cases:
+            r = do(c)
+            if r is None:
+                continue
+            if r.exc is None and rng.random() < 0.1:
+                # multi-step: the same question again on the same report
+                r2 = cc.RealRun(c["pattern"], r.program, api=c["api"])
+                res.count("repeated-call")
+                if r2.exc is not None or r2.matches != r.matches:
+                    res.disagreements.append({"case": {"pattern": c["pattern"], "code": c["code"]},
+                                              "real": "second call differs", "model": "-", "fields": ["repeat"]})
+            if rng.random() < (0.5 if tier == "quick" else 0.3):
+                for sc, kw in sub_cases(rng, c, r):
+                    do(sc, **kw)
+        to_model = [(c, r) for c, r in runs if r.compare_model]
+        answers = dict(zip((id(r) for _, r in to_model), driver.ask([r.request() for _, r in to_model])))
+        for c, r in runs:
             res.evaluations += 1
             res.count("origin:" + c["origin"].split(":")[0] + ":" + c["origin"].split(":")[-1])
-            model = cc.parse_model_matches(a)
+            res.count("setup:" + c["setup"])
+            res.count("api:" + r.api + (":use_previous" if r.use_previous else ""))
+            res.count("spelling:" + c.get("spelling", "plain"))
+            case = {k: c[k] for k in ("pattern", "code", "setup", "api", "use_previous", "parent_pattern") if k in c}
             if r.exc is not None:
                 res.count("real-raises:" + r.exc)
-                res.disagreements.append({"case": {"pattern": c["pattern"], "code": c["code"]},
-                                          "real": "raises " + r.exc, "model": str(model)[:200], "fields": ["exception"]})
+                res.disagreements.append({"case": case, "real": "raises " + r.exc, "model": "-", "fields": ["exception"]})
                 continue
+            if r.first_differs:
+                res.disagreements.append({"case": case, "real": "find_match is not find_matches[0]", "model": "-",
+                                          "fields": ["find_match"]})
             n = len(r.matches)
             res.count("matches:" + ("0" if n == 0 else "1" if n == 1 else "2-5" if n <= 5 else ">5"))
             if n:
-                res.nontrivial.add((c["pattern"], c["code"]))
+                res.nontrivial.add((c["pattern"], c["code"], r.api, r.anchor))
                 if len(res.samples) < 4:
                     res.samples.append({"pattern": c["pattern"], "code": c["code"][:200], "matches": n,
                                         "first": cc.show_match(r.matches[0])})
+            if not r.compare_model:
+                res.count("not-modelled:use_previous")
+                continue
+            model = cc.parse_model_matches(answers[id(r)])
             diffs = cc.compare(r.matches, model)
             if diffs:
-                res.disagreements.append({"case": {"pattern": c["pattern"], "code": c["code"]},
+                res.disagreements.append({"case": case,
                                           "real": [cc.show_match(m) for m in r.matches[:3]],
                                           "model": [cc.show_match(m) for m in model[:3]] if not isinstance(model, str) else model,
                                           "fields": diffs[:6], "origin": c["origin"]})
         STATE["runs"] = runs
+        STATE["skips"] = {k: v for k, v in res.distribution.items() if k.startswith(("skipped", "not-modelled"))}
         return res
     return run
 
